@@ -24,6 +24,12 @@ def check(repo: Repo, rep, tier):
     bound_order(repo, rep)
     same_type(repo, rep)
     clone_def(repo, rep)
+    positional_map(repo, rep)
+    from .C01 import default_guard
+    from .C14 import site_key
+
+    default_guard(repo, rep)
+    site_key(repo, rep)
 
 
 def role(e: ast.AST) -> str:
@@ -77,6 +83,10 @@ def facts_of_cond(cfg: CFG, c: Node, label: str, depth=0) -> Set[str]:
             out.add("LETTER:" + r.value)
         if isinstance(op, (ast.Gt, ast.Lt)) and "len(" in norm(l) and "len(" in norm(r) and T:
             out.add("LEN_DIFF")
+            # fewer positional arguments in the *source* than the new value reports
+            small, big = (l, r) if isinstance(op, ast.Lt) else (r, l)
+            if norm(small).endswith(".args)") and role(big) == "new":
+                out.add("SRC_FEWER")
     if isinstance(e, ast.Call) and isinstance(e.func, ast.Attribute) and e.func.attr == "cmp" and len(e.args) == 2:
         a, b = role(e.args[0]), role(e.args[1])
         if (a, b) == ("old", "new"):
@@ -163,6 +173,11 @@ def judge(label: str, kind: str, facts: Set[str], same_value: bool, in_adapter_a
             return False, "labelled fix for an undefined old value (that is a create)"
         if {"NEQ", "CMP_ON_F", "SOME_NOT_IN_OLD"} & facts:
             return True, "fix under a failed comparison"
+        if in_adapter_assign and kind in INSERT_KINDS and "SRC_FEWER" in facts:
+            return False, (
+                "an argument the source does not spell out is inserted as fix unconditionally: the source may omit default-valued arguments "
+                "(`defaultdict(list)` for `defaultdict(list, {})`), so a passing snapshot is reported as incorrect - the label must be `update if old == new else fix`"
+            )
         if in_adapter_assign and kind in INSERT_KINDS | {"Delete"}:
             if "EQ" in facts:
                 return False, "a structural edit labelled fix on the equal-value path"
@@ -190,6 +205,8 @@ def flag_label(repo: Repo, rep):
         for label, dnode, how in flag_values(s):
             if how == "ifexp":
                 e = s.args["flag"]
+                if isinstance(e, ast.Name):
+                    e = def_value(dnode, e.id)
                 t = e.test
                 ok = None
                 if isinstance(t, ast.Compare) and len(t.ops) == 1 and isinstance(t.ops[0], (ast.Eq, ast.NotEq)) and {role(t.left), role(t.comparators[0])} == {"old", "new"}:
@@ -285,3 +302,84 @@ def bound_order(repo: Repo, rep):
             rep.ok("R-BOUND-ORDER", m, m.node, f"{cname}.cmp(a, b) is a {want} b")
         else:
             rep.violation("R-BOUND-ORDER", m, m.node, f"{cname}.cmp is {sorted(map(str, rets))[:1]}, not a {want} b: every fix/trim decision and the running extreme of this bound are inverted or strict", construct=f"{cname}.cmp")
+
+
+# adapters whose constructor cannot take positional arguments at all (one line of reason each)
+NO_POSITIONAL_CTOR = {
+    "PydanticContainer": "BaseModel.__init__ is keyword-only: a positional argument in the snapshot raises TypeError when the argument is evaluated",
+}
+
+
+def _returns_no_positional(m) -> bool:
+    """every `return (<first>, ...)` of arguments() has a literal empty list as <first>"""
+    rets = [r for r in body_nodes(m.node) if isinstance(r, ast.Return) and r.value is not None]
+    if not rets:
+        return False
+    for r in rets:
+        v = r.value
+        if not (isinstance(v, ast.Tuple) and len(v.elts) == 2 and isinstance(v.elts[0], ast.List) and not v.elts[0].elts):
+            return False
+    return True
+
+
+def positional_map(repo: Repo, rep, prop="C05"):
+    rep.rule(
+        "R-POSITIONAL-MAP",
+        "arguments the user wrote by position are paired with the value's arguments through the adapter's positional names: (1) in GenericCallAdapter.assign "
+        "and .items the (args, kwargs) lists that are zipped / indexed with `<node>.args` come from a helper that receives the node and consults "
+        "`positional_names`, not from `arguments(value)` directly; (2) every call adapter whose `arguments()` reports keywords only (`return ([], ...)`) "
+        "overrides `positional_names`, unless its constructor takes no positional arguments (table).  Otherwise `A(1, b=2)` is compared as 'positional "
+        "argument removed, keyword a added': a passing snapshot is reported as fix and rewritten, Is() parts written by position lose their node",
+    )
+    g = repo.cls("GenericCallAdapter")
+    n = 0
+    for mname in ("assign", "items"):
+        m = g.methods.get(mname)
+        if m is None:
+            rep.undecided("R-POSITIONAL-MAP", f"GenericCallAdapter.{mname} not found")
+            continue
+        # the tuple-unpacking `a, k = <call>(value, ...)` whose first target is later paired with node.args
+        for st in body_nodes(m.node):
+            if isinstance(st, ast.Assign) and isinstance(st.targets[0], ast.Tuple) and len(st.targets[0].elts) == 2 and isinstance(st.value, ast.Call) and isinstance(st.value.func, ast.Attribute):
+                callee = st.value.func.attr
+                if callee not in ("arguments",) and "argument" not in callee:
+                    continue
+                n += 1
+                if callee == "arguments":
+                    rep.violation(
+                        "R-POSITIONAL-MAP",
+                        m,
+                        st,
+                        f"GenericCallAdapter.{mname} pairs the nodes of the call with `arguments(value)` directly: for dataclass / attrs / namedtuple values every argument is reported by name, "
+                        "so arguments written by position are seen as removed and re-added (fix on a passing snapshot)",
+                        construct=f"{mname}:arguments",
+                    )
+                    continue
+                tgt = repo.lookup_method(g, callee)
+                node_aware = tgt is not None and any(isinstance(x, ast.Attribute) and x.attr == "positional_names" for x in body_nodes(tgt.node)) and any(isinstance(x, ast.Attribute) and x.attr == "args" for x in body_nodes(tgt.node)) and len(st.value.args) >= 2
+                if node_aware:
+                    rep.ok("R-POSITIONAL-MAP", m, st, f"{mname}: arguments come from {callee}(value, node), which consults positional_names and node.args")
+                else:
+                    rep.violation("R-POSITIONAL-MAP", m, st, f"GenericCallAdapter.{mname} takes its arguments from `{callee}`, which does not map positional source arguments through positional_names", construct=f"{mname}:{callee}")
+    rep.floor("R-POSITIONAL-MAP", "argument sources in assign/items", n, 2)
+    for c in repo.subclasses(g):
+        am = c.methods.get("arguments")
+        if am is None or not _returns_no_positional(am):
+            continue
+        pn = c.methods.get("positional_names")
+        if pn is not None:
+            empty = all(isinstance(r.value, ast.List) and not r.value.elts for r in body_nodes(pn.node) if isinstance(r, ast.Return) and r.value is not None)
+            if empty:
+                rep.violation("R-POSITIONAL-MAP", pn, pn.node, f"{c.name}.positional_names always answers []: positional arguments of the snapshot are not mapped", construct=f"{c.name}:empty")
+            else:
+                rep.ok("R-POSITIONAL-MAP", pn, pn.node, f"{c.name}: keywords-only arguments() with positional_names")
+        elif c.name in NO_POSITIONAL_CTOR:
+            rep.ok("R-POSITIONAL-MAP", am, am.node, f"{c.name}: exempt - {NO_POSITIONAL_CTOR[c.name]}")
+        else:
+            rep.violation(
+                "R-POSITIONAL-MAP",
+                am,
+                am.node,
+                f"{c.name}.arguments() reports every argument by name but the class has no positional_names: `x == snapshot({c.name.replace('Adapter', '')}(1, 2))` is compared as if both positional arguments were removed",
+                construct=f"{c.name}:missing",
+            )
